@@ -668,6 +668,7 @@ type SliceOpts struct {
 	ThroughCallsIf func(c *ssa.Call) bool // finer control; overrides ThroughCalls when non-nil
 	Stop           func(v ssa.Value) bool // do not expand this value (it is still included)
 	Stores         bool                   // follow loads from local Allocs / fields of local Allocs to the stored values
+	Indices        bool                   // also follow the index operand of IndexAddr / Index / Lookup (which element was selected)
 }
 
 // BackSlice returns the set of values v may derive from (including v).
@@ -717,10 +718,19 @@ func BackSlice(v ssa.Value, o SliceOpts) map[ssa.Value]bool {
 			visit(x.X)
 		case *ssa.IndexAddr:
 			visit(x.X)
+			if o.Indices {
+				visit(x.Index)
+			}
 		case *ssa.Index:
 			visit(x.X)
+			if o.Indices {
+				visit(x.Index)
+			}
 		case *ssa.Lookup:
 			visit(x.X)
+			if o.Indices {
+				visit(x.Index)
+			}
 		case *ssa.Slice:
 			visit(x.X)
 		case *ssa.MakeClosure:
